@@ -271,6 +271,105 @@ func c20(x *Ctx) {
 			"memoized values are re-encoded with msgp.AppendIntf without a time.Time case: a standard msgpack timestamp (ext -1) in a field that a sampler reads is decoded to time.Time and forwarded as tinylib's private extension 5 (d7 ff … in, c7 0c 05 … out), which Honeycomb cannot read as a time")
 	}
 	c.Min(r4, 1)
+
+	// ---- clause 5: what is memoized for a client field is the decoded value itself ------------------------------
+	// (MarshalMsg prefers memoized values over the raw bytes, so anything done to a value between decoding and
+	// Payload.Set – a "normalisation" for the samplers' benefit – is forwarded to Honeycomb in place of the client's value)
+	const r5 = "C20.memoized-as-decoded"
+	for _, fn := range []string{"extractCriticalFieldsFromBytes", "MemoizeFields"} {
+		f := x.P.Func("types", "Payload", fn)
+		if f == nil || f.Blocks == nil {
+			continue
+		}
+		eng.Instrs(f, func(in ssa.Instruction) {
+			cl, ok := eng.IsCall(in, nPayloadSet)
+			if !ok {
+				return
+			}
+			a := eng.CallArgs(cl)
+			if _, isConst := eng.ConstString(a[0]); isConst {
+				return // a metadata key set to a computed value
+			}
+			c.Examined++
+			decoded := func(v ssa.Value) bool {
+				e, ok := v.(*ssa.Extract)
+				if !ok || e.Index != 0 {
+					return false
+				}
+				dc, ok := e.Tuple.(*ssa.Call)
+				if !ok {
+					return false
+				}
+				n := eng.CalleeName(dc)
+				return strings.HasSuffix(n, "msgp.ReadIntfBytes") || strings.HasSuffix(n, ").valueAny")
+			}
+			c.Decide(x.mustDerive(a[1], decoded), r5, fn+"/Set", x.Pos(in), "the decoder's result is memoized unchanged",
+				"the value memoized for a client field in "+fn+" is not the decoder's result as is (it passes through another function or conversion): since re-encoding prefers memoized values, Honeycomb receives the transformed value (another msgpack type, a truncated number) instead of what the client sent")
+		})
+	}
+	c.Min(r5, 2)
+
+	// ---- clause 6: a one-byte fixmap header is only written for fewer than 16 entries -----------------------------
+	const r6 = "C20.map-header-fits"
+	{
+		isCount := func(v ssa.Value) bool {
+			// the field counter: a uint32/int φ that is incremented in the function
+			phi, ok := eng.StripConv(v).(*ssa.Phi)
+			if !ok {
+				return false
+			}
+			seen := map[*ssa.Phi]bool{}
+			var inc func(p *ssa.Phi) bool
+			inc = func(p *ssa.Phi) bool {
+				if seen[p] {
+					return false
+				}
+				seen[p] = true
+				for _, e := range p.Edges {
+					switch y := e.(type) {
+					case *ssa.BinOp:
+						if y.Op == token.ADD {
+							return true
+						}
+					case *ssa.Phi:
+						if inc(y) {
+							return true
+						}
+					}
+				}
+				return false
+			}
+			return inc(phi)
+		}
+		n := 0
+		eng.Instrs(mm, func(in ssa.Instruction) {
+			bo, ok := in.(*ssa.BinOp)
+			if !ok || bo.Op != token.OR {
+				return
+			}
+			k, isK := eng.ConstInt(bo.X)
+			other := bo.Y
+			if !isK {
+				k, isK = eng.ConstInt(bo.Y)
+				other = bo.X
+			}
+			if !isK || k != 0x80 || !isCount(other) {
+				return
+			}
+			n++
+			c.Examined++
+			fifteen := int64(15)
+			as := &eng.Assume{Bool: func(v ssa.Value) eng.Tri {
+				return eng.EvalRel(v, []eng.RelFact{{A: isCount, BConst: &fifteen, Rel: eng.GT}})
+			}}
+			r := eng.ReachableSinks(mm, as, nil, func(i2 ssa.Instruction) bool { return i2 == in })
+			c.Decide(len(r.Hits) == 0, r6, "MarshalMsg/fixmap", x.Pos(in), "fixmap header only for fewer than 16 entries",
+				"a one-byte fixmap header (0x80|n) can be written for 16 or more entries: 0x80|16 is 0x90, an empty array header, so an event with exactly that many fields loses all of them and the rest of the batch is mis-framed")
+		})
+		if n == 0 {
+			c.Hold(r6, "MarshalMsg/map16", x.PosOf(mm.Pos()), "only the three-byte map16 header is written")
+		}
+	}
 }
 
 func extractOf2(v ssa.Value, idx int) []ssa.Value {
